@@ -586,6 +586,9 @@ def run(tier, replay):
                                     "failures": ["after %s operations%s: %s" % (o.get("k"), " (write torn at %s bytes)" % o["torn"] if o.get("torn") is not None else "", o["what"]) for o in p["oracle"][:6]]})
             if r["res"] == 2:
                 oracle_fail.append({"case": case, "failures": ["%s panicked: %s" % (case["op"], r["res_text"])]})
+            if r.get("open_fails"):
+                oracle_fail.append({"case": case, "files_before": sorted(r["files0"]), "files_after": sorted(r["files1"]),
+                                    "failures": r["open_fails"][:4]})
         samples.append({"kind": "fileops", "op": fo_rows[0]["case"]["op"], "baks": fo_rows[0]["case"]["baks"],
                         "observed_operations": fo_rows[0]["_events"]})
 
